@@ -230,7 +230,9 @@ fn pf_eof<const N: usize>() {
     let bytes: [u8; N] = kani::any();
     let mut inner = mk_inner(Body::empty(), any_direction(), kani::any());
     inner.buf.put_slice(&bytes);
-    if kani::any() {
+    let in_message: bool = kani::any();
+    if in_message {
+        // a length prefix has been consumed and its payload is still outstanding
         let len: usize = kani::any();
         inner.state = State::ReadBody { compression: None, len };
     }
@@ -239,11 +241,11 @@ fn pf_eof<const N: usize>() {
     match &r {
         Poll::Ready(Ok(None)) => {
             kani::cover!(true, "clean end");
-            assert!(N == 0, "C07: body ended inside a frame but the stream ended cleanly");
+            assert!(N == 0 && !in_message, "C07: body ended inside a frame but the stream ended cleanly");
         }
         Poll::Ready(Err(s)) => {
             kani::cover!(true, "unexpected eof");
-            assert!(N > 0);
+            assert!(N > 0 || in_message);
             assert!(s.code() == Code::Internal);
         }
         Poll::Ready(Ok(Some(()))) => assert!(false, "no data can arrive from an ended body"),
